@@ -34,7 +34,8 @@ from bounded.gen_f import DC, Base, Color, Sub, brief, cp, func, run  # noqa: F4
 from jsonargparse import ActionConfigFile, ActionParser, ActionYesNo, ArgumentParser, Namespace
 from jsonargparse.typing import Path_fr, PositiveInt
 
-LIMIT = 20
+LIMIT = 20       # seconds per call, thorough tier
+QUICK_LIMIT = 6  # seconds per call, quick tier (an ordinary call takes < 0.5 s)
 
 
 # ------------------------------------------------------------------ parser shapes: build(eoe) and the known option names with a type label
@@ -396,7 +397,7 @@ def judge(h, shape, eoe, method, canon, case, r, argv=None):
     case = dict(case, shape=shape + " (builder s_%s in bounded/b03_error_channel.py)" % shape, exit_on_error=eoe, method=method)
     kind, what = None, ""
     if r["kind"] == "timeout":
-        kind, what, tag = "timeout", f"no result within {LIMIT} s", "Timeout"
+        kind, what, tag = "timeout", "no result within the time limit (20 s thorough / 6 s quick; an ordinary call takes < 0.5 s)", "Timeout"
     elif r["kind"] == "ok":
         if not isinstance(r["value"], Namespace):
             kind, what, tag = "notnamespace", f"returned {type(r['value']).__name__}", type(r["value"]).__name__
@@ -444,62 +445,70 @@ def real_name(variant, name):
     return variant.replace("N", name)
 
 
+ALL_VALUES = V_SCALAR + V_BROKEN + V_TAGS + V_CLASS + V_PATHS
+
+# Self-referential MAPPINGS make `_apply_actions` loop without end (each such call costs the whole time limit), so the quick tier
+# uses them at a fixed, small set of places; the thorough tier uses them everywhere.
+SELFREF = {"&x {a: *x}", "&a {i: *a}", "selfref-dict"}
+QUICK_MALFORMED_VALUES = ["1", "", "._", "{", "!!timestamp x", cp("Leaf"), "<missing>", '{"class_path": 1}']
+QUICK_EXIT_VALUES = QUICK_VALUES + V_TAGS[:12]
+
+
+class Ctx:
+    def __init__(self, job, files):
+        self.si, self.eoe, self.part, self.ci, self.nc, self.thorough, self.seed = job
+        self.shape, self.build, allnames = SHAPES[self.si]
+        self.names = allnames[self.ci::self.nc]
+        self.first = self.ci == 0
+        self.files = files
+        self.h = Rec()
+        self.limit = LIMIT if self.thorough else QUICK_LIMIT
+
+    def selfref_ok(self, v, where):
+        """May the self-referential mapping `v` be used here? (always in thorough; quick: flat shape in raise mode, and parse_string of every shape)"""
+        if v not in SELFREF or self.thorough:
+            return True
+        if self.eoe:
+            return self.shape == "flat" and where == "parse_string"
+        return self.shape == "flat" or where == "parse_string"
+
+    def values(self):
+        if self.thorough:
+            return ALL_VALUES
+        if self.eoe:
+            return QUICK_EXIT_VALUES
+        if self.shape in ("jsonnet", "omegaconf"):
+            return [v for v in ALL_VALUES if v in QUICK_VALUES or v in V_TAGS or v in V_BROKEN]
+        return ALL_VALUES
+
+    def args(self, canon, argv, case=None):
+        argv = list(argv)
+        r = run(lambda: self.build(self.eoe).parse_args(list(argv)), limit=self.limit, stdin="i: 1\n")
+        judge(self.h, self.shape, self.eoe, "parse_args", canon, dict(case or {}, argv=argv), r, argv)
+
+    def call(self, method, canon, case, thunk, stdin=""):
+        judge(self.h, self.shape, self.eoe, method, canon, case, run(thunk, limit=self.limit, stdin=stdin))
+
+
 def work(job):
-    si, eoe, part, thorough, seed = job
-    shape, build, names = SHAPES[si]
-    h = Rec()
     os.environ.pop("JSONARGPARSE_DEBUG", None)
     cwd = os.getcwd()
     with tempfile.TemporaryDirectory() as tmp:
         files = Files(tmp)
+        c = Ctx(job, files)
         os.chdir(tmp)
         try:
-            if part == "argv":
-                do_argv(h, shape, build, names, eoe, files, thorough)
-            elif part == "argv2":
-                do_argv_malformed(h, shape, build, names, eoe, files, thorough)
-            elif part == "text":
-                do_text(h, shape, build, names, eoe, files, thorough)
-            elif part == "object":
-                do_object(h, shape, build, names, eoe, files, thorough)
-            elif part == "random":
-                do_random(h, shape, build, names, eoe, files, random.Random(seed * 7919 + si * 2 + int(eoe)))
+            {"argv": do_argv, "argv2": do_argv_malformed, "text": do_text, "object": do_object, "random": do_random}[c.part](c)
         finally:
             os.chdir(cwd)
             os.chmod(files.map["<unreadable>"], 0o600)
-    return h
-
-
-ALL_VALUES = V_SCALAR + V_BROKEN + V_TAGS + V_CLASS + V_PATHS
-
-
-def parse_args(build, eoe, argv):
-    return run(lambda: build(eoe).parse_args(list(argv)), limit=LIMIT, stdin="i: 1\n")
-
-
-def do_argv(h, shape, build, names, eoe, files, thorough):
-    """known option x every value (form --name=value); a second form (--name value) for a sub-list; the hand-written sequences."""
-    for name, label in names:
-        for v in ALL_VALUES:
-            if shape in ("jsonnet", "omegaconf") and not thorough and v not in QUICK_VALUES and v not in V_TAGS and v not in V_BROKEN:
-                continue
-            rv = files.sub(v)
-            argv = sub_argv(shape, name, f"--{leaf(name)}={rv}")
-            judge(h, shape, eoe, "parse_args", f"--<{label}>={short(v)}", {"argv": argv}, parse_args(build, eoe, argv), argv)
-            if thorough or v in QUICK_VALUES:
-                argv = sub_argv(shape, name, f"--{leaf(name)}", rv)
-                judge(h, shape, eoe, "parse_args", f"--<{label}> {short(v)}", {"argv": argv}, parse_args(build, eoe, argv), argv)
-    for seq in SEQUENCES:
-        argv = [files.sub(a) for a in seq]
-        judge(h, shape, eoe, "parse_args", "seq:" + short(" ".join(seq), 90), {"argv": argv}, parse_args(build, eoe, argv), argv)
+    return c.h
 
 
 def sub_argv(shape, name, *tokens):
     """Options of subcommand parsers are given behind the subcommand name(s)."""
     if shape == "subcommands" and "." in name and name.split(".")[0] in ("fit", "test"):
         return name.split(".")[:-1] + list(tokens)
-    if shape == "subcommands" and name == "fit":
-        return list(tokens)
     return list(tokens)
 
 
@@ -510,35 +519,51 @@ def leaf(name):
     return name
 
 
-def do_argv_malformed(h, shape, build, names, eoe, files, thorough):
-    values = ALL_VALUES if thorough else QUICK_VALUES
-    for name, label in names:
-        if shape == "subcommands" and name.split(".")[0] in ("fit", "test", "subcommand"):
-            if name not in ("fit.lr", "fit.model", "fit.b.q"):
+def do_argv(c):
+    """known option x every value (form --name=value); a second form (--name value) for a sub-list; the hand-written sequences."""
+    for name, label in c.names:
+        for v in c.values():
+            if not c.selfref_ok(v, "argv"):
                 continue
+            rv = c.files.sub(v)
+            c.args(f"--<{label}>={short(v)}", sub_argv(c.shape, name, f"--{leaf(name)}={rv}"))
+            if c.thorough or (v in QUICK_VALUES and not c.eoe):
+                c.args(f"--<{label}> {short(v)}", sub_argv(c.shape, name, f"--{leaf(name)}", rv))
+    if c.first:
+        for seq in SEQUENCES:
+            c.args("seq:" + short(" ".join(seq), 90), [c.files.sub(a) for a in seq])
+
+
+def do_argv_malformed(c):
+    values = ALL_VALUES if c.thorough else QUICK_MALFORMED_VALUES[:2] if c.eoe else QUICK_MALFORMED_VALUES
+    names = c.names
+    if c.shape == "subcommands":
+        names = [(n, l) for n, l in names if n.split(".")[0] not in ("fit", "test", "subcommand") or n in ("fit.lr", "fit.model", "fit.b.q")]
+    for name, label in names:
         for variant in NAME_VARIANTS[1:]:
             opt = real_name(variant, leaf(name))
             cn = canon_name(variant, label)
-            argv = sub_argv(shape, name, opt)
-            judge(h, shape, eoe, "parse_args", cn, {"argv": argv}, parse_args(build, eoe, argv), argv)
+            c.args(cn, sub_argv(c.shape, name, opt))
             for v in values:
-                rv = files.sub(v)
-                argv = sub_argv(shape, name, f"{opt}={rv}")
-                judge(h, shape, eoe, "parse_args", f"{cn}={short(v)}", {"argv": argv}, parse_args(build, eoe, argv), argv)
-                if thorough or v in QUICK_VALUES[:6]:
-                    argv = sub_argv(shape, name, opt, rv)
-                    judge(h, shape, eoe, "parse_args", f"{cn} {short(v)}", {"argv": argv}, parse_args(build, eoe, argv), argv)
-    for g in GLOBAL_NAMES:
-        argv = [g]
-        judge(h, shape, eoe, "parse_args", short(g), {"argv": argv}, parse_args(build, eoe, argv), argv)
-        for v in values:
-            rv = files.sub(v)
-            for argv, c in (([g + "=" + rv] if "=" not in g else [g + rv], f"{short(g)}={short(v)}"), ([g, rv], f"{short(g)} {short(v)}")):
-                judge(h, shape, eoe, "parse_args", c, {"argv": argv}, parse_args(build, eoe, argv), argv)
+                if not c.selfref_ok(v, "argv"):
+                    continue
+                rv = c.files.sub(v)
+                c.args(f"{cn}={short(v)}", sub_argv(c.shape, name, f"{opt}={rv}"))
+                if c.thorough or v in ("1", ""):
+                    c.args(f"{cn} {short(v)}", sub_argv(c.shape, name, opt, rv))
+    if c.first:
+        for g in GLOBAL_NAMES:
+            c.args(short(g), [g])
+            for v in values:
+                if not c.selfref_ok(v, "argv"):
+                    continue
+                rv = c.files.sub(v)
+                c.args(f"{short(g)}={short(v)}", [g + "=" + rv] if "=" not in g else [g + rv])
+                c.args(f"{short(g)} {short(v)}", [g, rv])
 
 
 def nest(name, value_text):
-    """YAML text `a.b.c: V` written as nested flow mapping {a: {b: {c: V}}} is not possible for raw V; use block style."""
+    """The YAML document `a:\n  b:\n    c: V` for the dotted name a.b.c and the raw value text V."""
     parts = name.split(".")
     lines = []
     for i, p in enumerate(parts[:-1]):
@@ -549,50 +574,53 @@ def nest(name, value_text):
     return "\n".join(lines)
 
 
-def do_text(h, shape, build, names, eoe, files, thorough):
-    """parse_string / parse_path / --cfg=<text> / --cfg=<file> / parse_env(APP_CFG) / parse_env(APP_<NAME>) / default_config_files."""
-    def five_ways(text, canon, heavy):
-        judge(h, shape, eoe, "parse_string", canon, {"text": text}, run(lambda: build(eoe).parse_string(text), limit=LIMIT))
+def do_text(c):
+    """parse_string / parse_path / --cfg=<file> / default_config_files / parse_env(APP_CFG) / parse_env(APP_<NAME>) / config paths."""
+    build, eoe, files = c.build, c.eoe, c.files
+
+    def ways(text, canon, heavy, selfref=False):
+        if not selfref or c.selfref_ok(next(iter(SELFREF)), "parse_string"):
+            c.call("parse_string", canon, {"text": text}, lambda: build(eoe).parse_string(text))
+        if selfref and not c.selfref_ok(next(iter(SELFREF)), "other"):
+            return
         if heavy:
             try:
                 path = files.text_file(text)
             except (UnicodeError, ValueError):
                 path = None
             if path:
-                judge(h, shape, eoe, "parse_path", "file:" + canon, {"file_content": text}, run(lambda: build(eoe).parse_path(path), limit=LIMIT))
-                argv = [f"--cfg={path}"]
-                judge(h, shape, eoe, "parse_args", "--cfg=file:" + canon, {"argv": ["--cfg=<file>"], "file_content": text}, parse_args(build, eoe, argv), argv)
-                judge(h, shape, eoe, "parse_args", "default_config_files:" + canon, {"default_config_files": ["<file>"], "file_content": text, "argv": []},
-                      run(lambda: build(eoe, default_config_files=[path]).parse_args([]), limit=LIMIT), [])
+                c.call("parse_path", "file:" + canon, {"file_content": text}, lambda: build(eoe).parse_path(path))
+                c.args("--cfg=file:" + canon, [f"--cfg={path}"], {"file_content": text})
+                c.call("parse_args", "default_config_files:" + canon, {"default_config_files": ["<file>"], "file_content": text, "argv": []},
+                       lambda: build(eoe, default_config_files=[path]).parse_args([]))
             if "\x00" not in text:
-                judge(h, shape, eoe, "parse_env", "APP_CFG=" + canon, {"env": {"APP_CFG": text}}, run(lambda: build(eoe).parse_env({"APP_CFG": text}), limit=LIMIT))
+                c.call("parse_env", "APP_CFG=" + canon, {"env": {"APP_CFG": text}}, lambda: build(eoe).parse_env({"APP_CFG": text}))
 
-    for text in TEXT_GLOBAL:
-        five_ways(text, short(text), True)
-    for name, label in names:
-        dotted = name
-        for v in ALL_VALUES:
-            quick_ok = v in QUICK_VALUES or v in V_TAGS or v in V_BROKEN[:20]
-            if not thorough and not quick_ok:
+    if c.first:
+        for text in TEXT_GLOBAL:
+            ways(text, short(text), c.thorough or not eoe, selfref=text in SELFREF)
+        # paths given directly to parse_path / as default config file
+        for v in V_PATHS + ["", " ", "-", "\n", "\ud800", "<good>\x00"]:
+            rv = files.sub(v)
+            c.call("parse_path", "path:" + short(v), {"path": rv}, lambda: build(eoe).parse_path(rv), stdin="{")
+            c.call("parse_args", "default_config_files:path:" + short(v), {"default_config_files": [rv], "argv": []},
+                   lambda: build(eoe, default_config_files=[rv]).parse_args([]))
+    for name, label in c.names:
+        for v in c.values():
+            if not c.thorough and not (v in QUICK_VALUES or v in V_TAGS or v in V_BROKEN[:20] or v in SELFREF):
                 continue
             rv = files.sub(v)
-            five_ways(nest(dotted, rv), f"<{label}>: {short(v)}", thorough or v in QUICK_VALUES)
-            if "." in dotted and (thorough or v in QUICK_VALUES):
-                five_ways(f"{dotted}: {rv}", f"dotted <{label}>: {short(v)}", False)
+            ways(nest(name, rv), f"<{label}>: {short(v)}", c.thorough or (v in QUICK_VALUES[:8] and not eoe), selfref=v in SELFREF)
+            if "." in name and (c.thorough or v in QUICK_VALUES) and v not in SELFREF:
+                ways(f"{name}: {rv}", f"dotted <{label}>: {short(v)}", False)
             # the per-argument environment variable
-            if "\x00" not in rv:
-                env = {"APP_" + dotted.replace(".", "__").upper(): rv}
-                if shape == "subcommands" and dotted.split(".")[0] in ("fit", "test"):
-                    env["APP_SUBCOMMAND"] = dotted.split(".")[0]
-                    if dotted.split(".")[1:2] in (["a"], ["b"]):
-                        env["APP_FIT__SUBCOMMAND"] = dotted.split(".")[1]
-                judge(h, shape, eoe, "parse_env", f"APP_<{label}>={short(v)}", {"env": env}, run(lambda: build(eoe).parse_env(dict(env)), limit=LIMIT))
-    # paths given directly to parse_path
-    for v in V_PATHS + ["", " ", "-", "\n", "\ud800", "<good>\x00"]:
-        rv = files.sub(v)
-        judge(h, shape, eoe, "parse_path", "path:" + short(v), {"path": rv}, run(lambda: build(eoe).parse_path(rv), limit=LIMIT, stdin="{"))
-        judge(h, shape, eoe, "parse_args", "default_config_files:path:" + short(v), {"default_config_files": [rv], "argv": []},
-              run(lambda: build(eoe, default_config_files=[rv]).parse_args([]), limit=LIMIT), [])
+            if "\x00" not in rv and c.selfref_ok(v, "env"):
+                env = {"APP_" + name.replace(".", "__").upper(): rv}
+                if c.shape == "subcommands" and name.split(".")[0] in ("fit", "test"):
+                    env["APP_SUBCOMMAND"] = name.split(".")[0]
+                    if name.split(".")[1:2] in (["a"], ["b"]):
+                        env["APP_FIT__SUBCOMMAND"] = name.split(".")[1]
+                c.call("parse_env", f"APP_<{label}>={short(v)}", {"env": env}, lambda: build(eoe).parse_env(dict(env)))
 
 
 def put(obj, dotted, value):
@@ -604,55 +632,62 @@ def put(obj, dotted, value):
     return obj
 
 
-def do_object(h, shape, build, names, eoe, files, thorough):
-    for name, label in names:
+def do_object(c):
+    build, eoe = c.build, c.eoe
+    few = [PYVALS[i] for i in (0, 2, 9, 17, 18)]  # None, 1, 'x', {}, {'a': 1}
+    for name, label in c.names:
         for vname, mk in PYVALS:
+            if not c.selfref_ok(vname, "object"):
+                continue
+            if eoe and not c.thorough and vname not in ("None", "'x'", "{}", "object()", "{'class_path':1}", "{'x':1,'inner':1}", "[None]", "'._'"):
+                continue
             for style in ("nested", "dotted"):
                 if style == "dotted" and "." not in name:
                     continue
+
                 def go():
                     v = mk()
-                    obj = put({}, name, v) if style == "nested" else {name: v}
-                    return build(eoe).parse_object(obj)
-                judge(h, shape, eoe, "parse_object", f"{style}:<{label}>={vname}", {"cfg_obj": f"{{{name!r}: {vname}}} ({style})"}, run(go, limit=LIMIT))
-            if thorough or vname in ("None", "1", "'x'", "{}", "[]", "object()", "{'class_path':1}"):
+                    return build(eoe).parse_object(put({}, name, v) if style == "nested" else {name: v})
+                c.call("parse_object", f"{style}:<{label}>={vname}", {"cfg_obj": f"{{{name!r}: {vname}}} ({style})"}, go)
+            if c.thorough or vname in ("None", "1", "'x'", "{}", "[]", "object()", "{'class_path':1}"):
                 def go_ns():
                     ns = Namespace()
                     ns[name] = mk()
                     return build(eoe).parse_object(ns)
-                judge(h, shape, eoe, "parse_object", f"namespace:<{label}>={vname}", {"cfg_obj": f"Namespace with [{name!r}] = {vname}"}, run(go_ns, limit=LIMIT))
+                c.call("parse_object", f"namespace:<{label}>={vname}", {"cfg_obj": f"Namespace with [{name!r}] = {vname}"}, go_ns)
         for kt in OBJ_KEYS:
             if "K" not in kt:
                 continue
             key = kt.replace("K", name)
-            for vname, mk in PYVALS[:3] + PYVALS[17:19]:
-                judge(h, shape, eoe, "parse_object", f"key:{kt.replace('K', '<' + label + '>')}={vname}", {"cfg_obj": f"{{{key!r}: {vname}}}"},
-                      run(lambda: build(eoe).parse_object({key: mk()}), limit=LIMIT))
-    for kt in OBJ_KEYS:
-        if "K" in kt:
-            continue
-        for vname, mk in PYVALS[:3] + PYVALS[17:19]:
-            judge(h, shape, eoe, "parse_object", f"key:{short(kt)}={vname}", {"cfg_obj": f"{{{kt!r}: {vname}}}"}, run(lambda: build(eoe).parse_object({kt: mk()}), limit=LIMIT))
-    # cfg_base / namespace arguments and the empty inputs
-    judge(h, shape, eoe, "parse_object", "empty", {"cfg_obj": {}}, run(lambda: build(eoe).parse_object({}), limit=LIMIT))
-    judge(h, shape, eoe, "parse_args", "empty", {"argv": []}, parse_args(build, eoe, []), [])
-    judge(h, shape, eoe, "parse_env", "empty", {"env": {}}, run(lambda: build(eoe).parse_env({}), limit=LIMIT))
-    judge(h, shape, eoe, "parse_args", "non-str-argv", {"argv": [1]}, run(lambda: build(eoe).parse_args([1]), limit=LIMIT), [])
+            for vname, mk in (few if c.thorough or not eoe else few[:2]):
+                c.call("parse_object", f"key:{kt.replace('K', '<' + label + '>')}={vname}", {"cfg_obj": f"{{{key!r}: {vname}}}"}, lambda: build(eoe).parse_object({key: mk()}))
+    if c.first:
+        for kt in OBJ_KEYS:
+            if "K" in kt:
+                continue
+            for vname, mk in few:
+                c.call("parse_object", f"key:{short(kt)}={vname}", {"cfg_obj": f"{{{kt!r}: {vname}}}"}, lambda: build(eoe).parse_object({kt: mk()}))
+        c.call("parse_object", "empty", {"cfg_obj": {}}, lambda: build(eoe).parse_object({}))
+        c.args("empty", [])
+        c.call("parse_env", "empty", {"env": {}}, lambda: build(eoe).parse_env({}))
+        c.call("parse_args", "non-str-argv", {"argv": [1]}, lambda: build(eoe).parse_args([1]))
 
 
-def do_random(h, shape, build, names, eoe, files, rng):
+def do_random(c):
     """thorough only: seeded random argv lists of 1-4 options from the whole grammar."""
-    for n in range(1500):
+    rng = random.Random(c.seed * 7919 + c.si * 64 + c.ci * 2 + int(c.eoe))
+    allnames = SHAPES[c.si][2]
+    for n in range(400):
         argv = []
         for _ in range(rng.randint(1, 4)):
             if rng.random() < 0.15:
                 tok = rng.choice(GLOBAL_NAMES)
             else:
-                name, _label = rng.choice(names)
+                name, _label = rng.choice(allnames)
                 tok = real_name(rng.choice(NAME_VARIANTS), leaf(name))
-                if shape == "subcommands" and name.split(".")[0] in ("fit", "test") and rng.random() < 0.8:
+                if c.shape == "subcommands" and name.split(".")[0] in ("fit", "test") and rng.random() < 0.8:
                     argv += name.split(".")[:-1]
-            v = files.sub(rng.choice(ALL_VALUES))
+            v = c.files.sub(rng.choice([x for x in ALL_VALUES if x not in SELFREF]))
             r = rng.random()
             if r < 0.6:
                 argv.append(tok + "=" + v)
@@ -660,22 +695,29 @@ def do_random(h, shape, build, names, eoe, files, rng):
                 argv += [tok, v]
             else:
                 argv.append(tok)
-        judge(h, shape, eoe, "parse_args", "random:" + short(" ".join(argv), 100), {"argv": argv}, parse_args(build, eoe, argv), argv)
+        c.args(f"random:{c.ci}:{n}:" + short(" ".join(argv), 90), argv)
 
 
 def main():
     h = Harness("b03_error_channel", rule=(
-        "7 parser shapes x both exit_on_error modes x {known option x ~330 values in 2 argv forms; 30 malformed spellings of every option + 34 global tokens x 20 "
+        "7 parser shapes x both exit_on_error modes x {known option x ~330 values in 2 argv forms; 30 malformed spellings of every option + 34 global tokens x 8 "
         "values (all values in thorough); ~190 hand-written multi-option sequences; ~140 config documents + (key: value) documents through parse_string, parse_path, "
-        "--cfg=<file>, default_config_files, APP_CFG; per-argument environment variables; 20 kinds of config path; parse_object with 66 Python values at every key, "
-        "26 malformed keys}; non-trivial = distinct (shape, mode, method, canonical input) - every one is a call of a public parse method on a non-empty input"))
+        "--cfg=<file>, default_config_files, APP_CFG; per-argument environment variables; 26 kinds of config path; parse_object with 66 Python values at every key, "
+        "26 malformed keys}; quick tier: exit mode on a sub-list of values; non-trivial = distinct (shape, mode, method, canonical input) - every one is a call of a "
+        "public parse method on a non-empty input"))
     saved_env = dict(os.environ)
-    parts = ["argv", "argv2", "text", "object"] + (["random"] if h.thorough else [])
-    jobs = [(si, eoe, part, h.thorough, h.seed) for si in range(len(SHAPES)) for eoe in (False, True) for part in parts]
+    parts = ["text", "argv", "argv2", "object"] + (["random"] if h.thorough else [])
+    jobs = []
+    for part in parts:
+        for si in range(len(SHAPES)):
+            nc = 4 if part == "random" else max(1, (len(SHAPES[si][2]) + 1) // 2) if h.thorough or part != "object" else max(1, len(SHAPES[si][2]) // 4)
+            for eoe in (False, True):
+                for ci in range(nc):
+                    jobs.append((si, eoe, part, ci, nc, h.thorough, h.seed))
     if h.only:
-        jobs = [j for j in jobs if f"{SHAPES[j[0]][0]}/{'exit' if j[1] else 'raise'}/{j[2]}" == h.only]
-    weight = {"text": 0, "argv2": 1, "argv": 2, "object": 3, "random": 1}
-    sched = sorted(range(len(jobs)), key=lambda n: (weight[jobs[n][2]], jobs[n][0]))
+        jobs = [j for j in jobs if f"{SHAPES[j[0]][0]}/{'exit' if j[1] else 'raise'}/{j[2]}/{j[3]}" == h.only]
+    # long jobs first: raise mode before exit mode, chunk 0 (which also carries the global inputs) first
+    sched = sorted(range(len(jobs)), key=lambda n: (jobs[n][1], jobs[n][3] != 0, parts.index(jobs[n][2])))
     with multiprocessing.get_context("fork").Pool(16) as pool:
         res = pool.map(work, [jobs[n] for n in sched], chunksize=1)
     results = [None] * len(jobs)
@@ -692,14 +734,15 @@ def main():
             stats[k] = stats.get(k, 0) + v
     os.environ.clear()
     os.environ.update(saved_env)
-    h.note(f"outcomes: {stats}; distinct violation keys: {len(h.viol_keys)} (the evidence file lists at most 200)")
+    h.note(f"outcomes: {stats}; distinct violation keys: {len(h.viol_keys)} (the evidence file lists at most 200 of them, in enumeration order)")
     h.check(stats.get("ok", 0) > 0 and stats.get("ArgumentError", 0) > 0 and stats.get("exit2", 0) > 0 and stats.get("exit0", 0) > 0, "c03:vacuity",
             f"one of the outcome classes never occurred: {stats}")
     h.sample({"shapes": [s[0] for s in SHAPES], "example argv": ["--m.init_args.req=._"], "example text": "i: !!timestamp x"})
     sys.exit(h.finish(exhaustive=True, bound=(
         f"{len(SHAPES)} shapes x 2 modes; {len(ALL_VALUES)} values; {len(NAME_VARIANTS)} spellings per option; {len(GLOBAL_NAMES)} global tokens; {len(SEQUENCES)} sequences; "
-        f"{len(TEXT_GLOBAL)} documents; {len(PYVALS)} Python values; single option per argv except the sequences"
-        + ("; + 1500 seeded random argv lists (1-4 options) per shape and mode" if h.thorough else "; malformed spellings x 20 values only"))))
+        f"{len(TEXT_GLOBAL)} documents; {len(PYVALS)} Python values; single option per argv except the sequences; time limit per call "
+        + (f"{LIMIT} s; + 400 seeded random argv lists (1-4 options) x 4 per shape and mode" if h.thorough else
+           f"{QUICK_LIMIT} s; exit mode, malformed spellings and self-referential mappings on sub-lists (see QUICK_* in the source)"))))
 
 
 if __name__ == "__main__":
